@@ -1,4 +1,5 @@
 import MitumModel.Model.Reopen
+import MitumModel.Model.ReopenTemps
 import MitumModel.Gen.C20
 import MitumModel.Pins
 /-!
@@ -26,8 +27,308 @@ theorem body_needed (f : Frame) (h : f.body ≠ []) : readBytes (load false (per
   simp [load, persist, readBytes]
   exact fun e => h e
 
+/-! ### the temps a Center loads when it is opened anew -/
+section temps
+open Mitum.ReopenTemps
+
+/-- ids of the merged prefixes of a height, newest first -/
+def mergedAt (disk : List Pfx) (h : Nat) : List Nat :=
+  (disk.filter (fun p => decide (p.height = h) && p.merged)).map (·.id)
+
+def fixed : Code := { scansAll := true, removesOnDisk := true }
+
+theorem loadTemp_fixed (disk : List Pfx) (h : Nat) : loadTemp fixed disk h = (mergedAt disk h).head? := by
+  unfold loadTemp mergedAt fixed
+  simp only [if_true]
+  have : disk.filter (fun p => decide (p.height = h) && p.merged) =
+      (disk.filter (fun p => decide (p.height = h))).filter (·.merged) := by
+    rw [List.filter_filter]
+    congr 1
+    funext p
+    exact Bool.and_comm _ _
+  rw [this, List.head?_map, List.head?_filter]
+
+theorem le_maxH (disk : List Pfx) (p : Pfx) (hp : p ∈ disk) : p.height ≤ maxH disk := by
+  induction disk with
+  | nil => cases hp
+  | cons q rest ih =>
+    unfold maxH
+    simp only [List.foldr_cons]
+    rcases List.mem_cons.mp hp with rfl | h
+    · exact Nat.le_max_left _ _
+    · exact Nat.le_trans (ih h) (Nat.le_max_right _ _)
+
+structure Inv (s : St) : Prop where
+  one : ∀ k (hk : k < s.mem.length), mergedAt s.disk (s.perm + k) = [s.mem[k]]
+  above : ∀ h, s.perm + s.mem.length ≤ h → mergedAt s.disk h = []
+  fresh : ∀ p ∈ s.disk, p.id < s.next
+  memFresh : ∀ x ∈ s.mem, x < s.next
+  nodup : s.mem.Nodup
+
+theorem loadTemps_spec (disk : List Pfx) : ∀ (mem : List Nat) (perm fuel : Nat),
+    (∀ k (hk : k < mem.length), mergedAt disk (perm + k) = [mem[k]]) →
+    mergedAt disk (perm + mem.length) = [] → mem.length < fuel →
+    loadTemps fixed disk fuel perm = mem := by
+  intro mem
+  induction mem with
+  | nil =>
+    intro perm fuel _ h0 hf
+    cases fuel with
+    | zero => simp at hf
+    | succ f => simp only [loadTemps, loadTemp_fixed]; simp at h0; rw [h0]; rfl
+  | cons x rest ih =>
+    intro perm fuel h1 h0 hf
+    cases fuel with
+    | zero => simp at hf
+    | succ f =>
+      have hx := h1 0 (by simp)
+      simp only [Nat.add_zero, List.getElem_cons_zero] at hx
+      simp only [loadTemps, loadTemp_fixed, hx, List.head?_cons]
+      congr 1
+      apply ih (perm + 1) f
+      · intro k hk
+        have := h1 (k + 1) (by simp; omega)
+        simpa [Nat.add_assoc, Nat.add_comm 1 k] using this
+      · simpa [Nat.add_assoc, Nat.add_comm 1] using h0
+      · simp at hf; omega
+
+/-- **reopen_temps_equal** (one state): when the invariant holds, a Center opened anew on the storage has
+exactly the temps the running Center had -/
+theorem reopen_of_inv (s : St) (hi : Inv s) : reopen fixed s = s.mem := by
+  unfold reopen
+  cases hm : s.mem with
+  | nil =>
+    cases hf : maxH s.disk + 2 - s.perm with
+    | zero => rfl
+    | succ f =>
+      have := loadTemps_spec s.disk [] s.perm (f + 1) (fun k hk => by simp at hk)
+        (by have := hi.above s.perm (by rw [hm]; simp); simpa using this) (by simp)
+      exact this
+  | cons x rest =>
+    rw [← hm]
+    apply loadTemps_spec s.disk s.mem s.perm _ hi.one (hi.above _ (Nat.le_refl _))
+    -- the newest temp has a prefix on disk, so `maxH` reaches its height
+    have hk : s.mem.length - 1 < s.mem.length := by rw [hm]; simp
+    have h1 := hi.one (s.mem.length - 1) hk
+    have : s.mem[s.mem.length - 1] ∈ mergedAt s.disk (s.perm + (s.mem.length - 1)) := by rw [h1]; simp
+    unfold mergedAt at this
+    obtain ⟨p, hp, _⟩ := List.mem_map.mp this
+    have hp' := List.mem_filter.mp hp
+    have hh : p.height = s.perm + (s.mem.length - 1) := by
+      have := hp'.2; simp at this; exact this.1
+    have := le_maxH s.disk p hp'.1
+    have hl : s.mem.length = rest.length + 1 := by rw [hm]; simp
+    omega
+
+
+theorem mergedAt_cons (p : Pfx) (disk : List Pfx) (h : Nat) :
+    mergedAt (p :: disk) h = if p.height = h ∧ p.merged = true then p.id :: mergedAt disk h else mergedAt disk h := by
+  unfold mergedAt
+  by_cases hc : p.height = h ∧ p.merged = true
+  · simp [hc.1, hc.2]
+  · simp only [hc, if_false, List.filter_cons]
+    have : (decide (p.height = h) && p.merged) = false := by
+      cases hm : p.merged <;> simp_all
+    simp [this]
+
+theorem mergedAt_filter_id (disk : List Pfx) (q : Nat → Bool) (h : Nat) :
+    mergedAt (disk.filter (fun p => q p.id)) h = (mergedAt disk h).filter q := by
+  unfold mergedAt
+  rw [List.filter_map, List.filter_filter, List.filter_filter]
+  congr 1
+  apply List.filter_congr
+  intro p _
+  simp [Bool.and_comm]
+
+theorem mergedAt_clean (disk : List Pfx) (perm h : Nat) (hh : perm ≤ h) :
+    mergedAt (disk.filter (fun p => !(decide (p.height < perm)))) h = mergedAt disk h := by
+  unfold mergedAt
+  rw [List.filter_filter]
+  congr 1
+  apply List.filter_congr
+  intro p _
+  by_cases e : p.height = h
+  · have : decide (p.height < perm) = false := by simp; omega
+    simp [this]
+  · simp [e]
+
+theorem inv_init : Inv init := by
+  refine ⟨fun k hk => by simp [init] at hk, fun h _ => rfl, fun p hp => by simp [init] at hp,
+    fun x hx => by simp [init] at hx, by simp [init]⟩
+
+theorem inv_step (s : St) (op : Op) (hi : Inv s) : Inv (step fixed s op) := by
+  cases op with
+  | commit =>
+    refine ⟨?_, ?_, ?_, ?_, ?_⟩
+    · intro k hk
+      simp only [step, List.length_append, List.length_singleton] at hk ⊢
+      rw [mergedAt_cons]
+      by_cases e : k = s.mem.length
+      · subst e
+        simp [hi.above _ (Nat.le_refl _)]
+      · have hk' : k < s.mem.length := by omega
+        rw [if_neg (fun hc => by have := hc.1; simp only at this; omega)]
+        rw [hi.one k hk', List.getElem_append_left hk']
+    · intro h hh
+      simp only [step, List.length_append, List.length_singleton] at hh ⊢
+      rw [mergedAt_cons]
+      rw [if_neg (fun hc => by have := hc.1; simp only at this; omega)]
+      exact hi.above h (by omega)
+    · intro p hp
+      simp only [step, List.mem_cons] at hp ⊢
+      rcases hp with rfl | hp
+      · simp
+      · exact Nat.lt_succ_of_lt (hi.fresh p hp)
+    · intro x hx
+      simp only [step, List.mem_append, List.mem_singleton] at hx ⊢
+      rcases hx with hx | rfl
+      · exact Nat.lt_succ_of_lt (hi.memFresh x hx)
+      · exact Nat.lt_succ_self _
+    · simp only [step]
+      rw [List.nodup_append]
+      refine ⟨hi.nodup, by simp, ?_⟩
+      intro a ha b hb
+      simp only [List.mem_singleton] at hb
+      subst hb
+      have := hi.memFresh a ha
+      omega
+  | abandon h =>
+    refine ⟨?_, ?_, ?_, ?_, hi.nodup⟩
+    · intro k hk
+      simp only [step] at hk ⊢
+      rw [mergedAt_cons]
+      simp only [Bool.false_eq_true, and_false, if_false]
+      exact hi.one k hk
+    · intro h' hh
+      simp only [step] at hh ⊢
+      rw [mergedAt_cons]
+      simp only [Bool.false_eq_true, and_false, if_false]
+      exact hi.above h' hh
+    · intro p hp
+      simp only [step, List.mem_cons] at hp ⊢
+      rcases hp with rfl | hp
+      · simp
+      · exact Nat.lt_succ_of_lt (hi.fresh p hp)
+    · intro x hx
+      exact Nat.lt_succ_of_lt (hi.memFresh x hx)
+  | remove h =>
+    by_cases hc : s.perm ≤ h ∧ h < s.perm + s.mem.length
+    · have hstep : step fixed s (.remove h) =
+          { s with mem := s.mem.take (h - s.perm),
+                   disk := s.disk.filter (fun p => !(s.mem.drop (h - s.perm)).contains p.id) } := by
+        simp [step, hc, fixed]
+      rw [hstep]
+      have hj : h - s.perm < s.mem.length := by omega
+      have hdisj : ∀ x, x ∈ s.mem.take (h - s.perm) → x ∈ s.mem.drop (h - s.perm) → False := by
+        intro x h1 h2
+        have hn := hi.nodup
+        rw [← List.take_append_drop (h - s.perm) s.mem, List.nodup_append] at hn
+        exact hn.2.2 x h1 x h2 rfl
+      refine ⟨?_, ?_, ?_, ?_, ?_⟩
+      · intro k hk
+        simp only [List.length_take] at hk
+        have hk' : k < s.mem.length := by omega
+        simp only
+        rw [mergedAt_filter_id s.disk (fun i => !(s.mem.drop (h - s.perm)).contains i), hi.one k hk', List.getElem_take]
+        have hin : s.mem[k] ∈ s.mem.take (h - s.perm) := by
+          rw [List.mem_take_iff_getElem]
+          exact ⟨k, by omega, rfl⟩
+        have hnot : ¬ s.mem[k] ∈ s.mem.drop (h - s.perm) := fun h2 => hdisj _ hin h2
+        simp [hnot]
+      · intro h' hh
+        simp only [List.length_take] at hh
+        simp only
+        rw [mergedAt_filter_id s.disk (fun i => !(s.mem.drop (h - s.perm)).contains i)]
+        by_cases hlt : h' < s.perm + s.mem.length
+        · have hk' : h' - s.perm < s.mem.length := by omega
+          have := hi.one (h' - s.perm) hk'
+          rw [show s.perm + (h' - s.perm) = h' by omega] at this
+          rw [this]
+          have hin : s.mem[h' - s.perm] ∈ s.mem.drop (h - s.perm) := by
+            rw [List.mem_drop_iff_getElem]
+            refine ⟨h' - s.perm - (h - s.perm), by omega, ?_⟩
+            congr 1
+            omega
+          simp [hin]
+        · rw [hi.above h' (by omega)]; rfl
+      · intro p hp
+        exact hi.fresh p (List.mem_filter.mp hp).1
+      · intro x hx
+        exact hi.memFresh x (List.mem_of_mem_take hx)
+      · exact hi.nodup.sublist (List.take_sublist _ _)
+    · have : step fixed s (.remove h) = s := by simp [step, hc]
+      rw [this]; exact hi
+  | mergePerm =>
+    cases hm : s.mem with
+    | nil =>
+      have : step fixed s .mergePerm = s := by simp [step, hm]
+      rw [this]; exact hi
+    | cons x rest =>
+      have hstep : step fixed s .mergePerm = { s with perm := s.perm + 1, mem := rest } := by simp [step, hm]
+      rw [hstep]
+      refine ⟨?_, ?_, hi.fresh, ?_, ?_⟩
+      · intro k hk
+        simp only at hk ⊢
+        have := hi.one (k + 1) (by rw [hm]; simp; omega)
+        rw [show s.perm + 1 + k = s.perm + (k + 1) by omega, this]
+        simp [hm]
+      · intro h hh
+        simp only at hh
+        exact hi.above h (by rw [hm]; simp; omega)
+      · intro y hy
+        exact hi.memFresh y (by rw [hm]; exact List.mem_cons_of_mem _ hy)
+      · have := hi.nodup; rw [hm] at this; exact (List.nodup_cons.mp this).2
+  | clean =>
+    refine ⟨?_, ?_, ?_, hi.memFresh, hi.nodup⟩
+    · intro k hk
+      simp only [step] at hk ⊢
+      rw [mergedAt_clean _ _ _ (by omega)]
+      exact hi.one k hk
+    · intro h hh
+      simp only [step] at hh ⊢
+      rw [mergedAt_clean _ _ _ (by omega)]
+      exact hi.above h hh
+    · intro p hp
+      exact hi.fresh p (List.mem_filter.mp hp).1
+
+theorem inv_run (ops : List Op) : Inv (run fixed ops) := by
+  unfold run
+  suffices h : ∀ (s : St), Inv s → Inv (ops.foldl (step fixed) s) from h init inv_init
+  induction ops with
+  | nil => intro s hs; exact hs
+  | cons op rest ih => intro s hs; exact ih _ (inv_step s op hs)
+
+/-- **reopen_temps_equal.**  After every history of commits, abandoned writers (of any height), roll-backs,
+merges into the permanent database and clean-ups, a Center opened anew on the same storage loads exactly
+the temps the running Center holds: same blocks, same order, nothing of an abandoned or rolled-back writer. -/
+theorem reopen_temps_equal (ops : List Op) : reopen fixed (run fixed ops) = (run fixed ops).mem :=
+  reopen_of_inv _ (inv_run ops)
+
+/-- why `loadTemp` has to look past the newest prefix: an abandoned writer of the newest height hides the
+    merged one (seeded change C20-C) -/
+theorem newest_only_witness :
+    let c : Code := { scansAll := false, removesOnDisk := true }
+    let s := run c [.commit, .commit, .abandon 1]
+    s.mem = [0, 1] ∧ reopen c s = [0] := by decide
+
+/-- why `RemoveBlocks` has to delete the temps on disk: they carry their merged marker (seeded change C20-D) -/
+theorem rolled_back_returns_witness :
+    let c : Code := { scansAll := true, removesOnDisk := false }
+    let s := run c [.commit, .commit, .commit, .remove 1]
+    s.mem = [0] ∧ reopen c s = [0, 1, 2] := by decide
+
+example : (run fixed [.commit, .commit, .abandon 1, .mergePerm, .commit, .remove 2, .commit, .clean]).mem = [1, 4] ∧
+    reopen fixed (run fixed [.commit, .commit, .abandon 1, .mergePerm, .commit, .remove 2, .commit, .clean]) = [1, 4] := by decide
+
+
+/-- the code as extracted from the source on this run -/
+def current : Code := { scansAll := Gen.C20.loadTempScansAll, removesOnDisk := Gen.C20.removeBlocksRemovesOnDisk }
+
+end temps
+
 theorem facts_ok :
-    Gen.C20.blockMapLoaderKeepsBody = true ∧ Gen.C20.proofLoaderKeepsBody = true ∧ Gen.C20.extractErrors = [] := by decide
+    Gen.C20.blockMapLoaderKeepsBody = true ∧ Gen.C20.proofLoaderKeepsBody = true ∧
+    Gen.C20.loadTempScansAll = true ∧ Gen.C20.removeBlocksRemovesOnDisk = true ∧ Gen.C20.extractErrors = [] := by decide
 
 theorem source_pinned : Gen.C20.pins = Pins.C20 := by decide
 
